@@ -48,15 +48,14 @@ from vlib.report import Report
 
 PID = "C13"
 
-MC_QUICK = ["Symbols_MCq_scope", "Symbols_MCq_case", "Symbols_MCq_temp", "Symbols_MCq_stack", "Symbols_MCq_macro",
-            "Symbols_MCPq_scope", "Symbols_MCPq_temp", "Symbols_MCPq_stack", "Symbols_MCPq_macro"]
+MC_QUICK = ["Symbols_MCq_scope", "Symbols_MCq_case", "Symbols_MCq_temp", "Symbols_MCq_stack", "Symbols_MCq_macro"]
 MC_THOROUGH = ["Symbols_MCt_scope", "Symbols_MCt_scope2", "Symbols_MCt_case", "Symbols_MCt_temp", "Symbols_MCt_stack",
-               "Symbols_MCt_macro", "Symbols_MCPt_scope", "Symbols_MCPt_temp", "Symbols_MCPt_stack",
-               "Symbols_MCPt_macro"]
-GEN_QUICK = ["Symbols_Genq_scope", "Symbols_Genq_temp", "Symbols_Genq_stack", "Symbols_Genq_macro"]
-GEN_THOROUGH = ["Symbols_Gent_scope", "Symbols_Gent_scopeU", "Symbols_Gent_temp", "Symbols_Gent_stack",
+               "Symbols_MCt_macro"]
+GEN_QUICK = ["Symbols_Gen_witness", "Symbols_Genq_scope", "Symbols_Genq_temp", "Symbols_Genq_stack", "Symbols_Genq_macro"]
+GEN_THOROUGH = ["Symbols_Gen_witness", "Symbols_Gent_scope", "Symbols_Gent_temp", "Symbols_Gent_stack",
                 "Symbols_Gent_macro"]
 DIALECTS = ("z80", "68000")
+PASS_CAP = "12"          # ASL_VERIF_MAX_PASSES: a program that needs more passes exits with status 97
 
 
 # ----------------------------------------------------------------------------------------------------------
@@ -65,7 +64,7 @@ DIALECTS = ("z80", "68000")
 def model_check(rep, tier):
     cfgs = MC_QUICK if tier == "quick" else MC_THOROUGH
     jobs = int(os.environ.get("VERIF_JOBS", "0") or 0) or (os.cpu_count() or 4)
-    par = 4 if tier == "quick" else 3
+    par = 5 if tier == "quick" else 3
     w = max(1, min(4, jobs // par))
 
     def one(c):
@@ -95,43 +94,66 @@ def _key(beh):
 
 
 def generate(rep, tier):
-    behs, seen = [], set()
+    """yields (source name, list of behaviours): one batch per TLC run, so that the thorough tier never holds more
+    than one batch of small programs in memory"""
+    seen = set()
 
-    def add(b, src):
-        k = _key(b)
-        if k not in seen:
-            seen.add(k)
-            b["src"] = src
-            behs.append(b)
+    def fresh(printed, src):
+        out = []
+        for tag, b in printed:
+            if tag == "BEH":
+                k = _key(b)
+                if k not in seen:
+                    seen.add(k)
+                    b["src"] = src
+                    out.append(b)
+        return out
     cfgs = GEN_QUICK if tier == "quick" else GEN_THOROUGH
 
     def bfs(c):
-        return c, tlc.run("Symbols_Gen", c + ".cfg", workers=2, timeout=1500, mem="3g")
-    with Phase("TLC: all small programs (%d configurations)" % len(cfgs)):
-        for c, r in pmap(bfs, cfgs, workers=3):
-            tlc.must(r, c)
-            if r.violation:
-                raise CheckError("Symbols_Gen %s: %s" % (c, r.violation[:500]))
-            rep.model("Symbols_Gen(%s)" % c, r)
-            n0 = len(behs)
-            for tag, b in r.printed:
-                if tag == "BEH":
-                    add(b, c)
-            rep.part("Symbols_Gen(%s)" % c, programs=len(behs) - n0)
-    nsim = 160 if tier == "quick" else 3000
-    with Phase("TLC: simulate long programs"):
-        for cfg, share in (("Symbols_Sim.cfg", 0.6), ("Symbols_SimScope.cfg", 0.4)):
+        return c, tlc.run("Symbols_Gen", c + ".cfg", workers=2 if tier == "quick" else 4, timeout=1700, mem="4g")
+
+    def checked(c, r):
+        tlc.must(r, c)
+        if r.violation:
+            raise CheckError("Symbols_Gen %s: %s" % (c, r.violation[:500]))
+        rep.model("Symbols_Gen(%s)" % c, r)
+    if tier == "quick":
+        with Phase("TLC: all small programs (%d configurations)" % len(cfgs)):
+            res = pmap(bfs, cfgs, workers=3)
+        small = []
+        for c, r in res:
+            checked(c, r)
+            got = fresh(r.printed, c)
+            rep.part("Symbols_Gen(%s)" % c, programs=len(got))
+            small += got
+        if len(small) > 4000:
+            # quick: a seed-chosen sample of the exhaustive small programs is replayed (all of them in thorough)
+            r0 = rng("c13/bfs-sample")
+            rep.part("generation", small_programs_generated=len(small), small_programs_replayed=4000)
+            small = [b for b in small if b["src"] == "Symbols_Gen_witness"] + \
+                r0.sample([b for b in small if b["src"] != "Symbols_Gen_witness"], 4000)
+        yield "small", small
+    else:
+        for c in cfgs:
+            with Phase("TLC: all small programs of %s" % c):
+                c, r = bfs(c)
+            checked(c, r)
+            got = fresh(r.printed, c)
+            r.printed = []
+            rep.part("Symbols_Gen(%s)" % c, programs=len(got))
+            yield c, got
+    nsim = 320 if tier == "quick" else 3000
+    for cfg, share in (("Symbols_Sim.cfg", 0.45), ("Symbols_SimScope.cfg", 0.35), ("Symbols_SimStack.cfg", 0.2)):
+        with Phase("TLC: simulate long programs (%s)" % cfg):
             r = tlc.must(tlc.run("Symbols_Gen", cfg, workers=4, simulate=max(1, int(nsim * share) // 4), depth=45,
                                  deadlock=True, timeout=1700, mem="4g"), cfg)
-            if r.violation:
-                raise CheckError("Symbols_Gen simulation: %s" % r.violation[:500])
-            n0 = len(behs)
-            for tag, b in r.printed:
-                if tag == "BEH":
-                    add(b, cfg)
-            rep.cov["transitions"] += r.generated
-            rep.part("Symbols_Gen(%s)" % cfg, states_generated=r.generated, programs=len(behs) - n0, wall_s=r.wall)
-    return behs
+        if r.violation:
+            raise CheckError("Symbols_Gen simulation: %s" % r.violation[:500])
+        got = fresh(r.printed, cfg)
+        rep.cov["transitions"] += r.generated
+        rep.part("Symbols_Gen(%s)" % cfg, states_generated=r.generated, programs=len(got), wall_s=r.wall)
+        yield cfg, got
 
 
 # ----------------------------------------------------------------------------------------------------------
@@ -152,6 +174,11 @@ def judge(rep, beh, dia, src, opts, res):
         case["observed"] = {"rc": res.rc, "words": got}
         rep.violation(what, case=case, files=files, key=key)
 
+    if res.rc == 97 and not res.timeout:
+        case["observed"] = {"rc": 97}
+        rep.violation("the pass loop does not end (more than %s passes)" % PASS_CAP, case=case, files=files,
+                      key={"kind": "passes", "cause": cause[0] if (len(cause) == 1 and M["repass"]) else "", "devs": devs})
+        return
     if res.timeout or res.sig is not None or res.rc not in (0, 2):
         viol("crash", "assembler did not end normally (rc=%s signal=%s timeout=%s)" % (res.rc, res.sig, res.timeout))
         return
@@ -175,7 +202,7 @@ def judge(rep, beh, dia, src, opts, res):
         viol("resolution", "statement %d (%s): the manual's rule gives %d, the code file has %d (all: expected %s got %s)"
              % (exp[k]["pos"], beh["prog"][exp[k]["pos"] - 1], exp[k]["v"], got[k], [w["v"] for w in exp], got), got)
         return
-    if got != M["words"]:
+    if got != M["words"] and not X["devs"]:
         rep.drift("pass-dependent words differ from the machine's prediction: %s vs %s in %r"
                   % (got, M["words"], src[:400]))
 
@@ -192,7 +219,7 @@ def replay_all(rep, bld, behs, tier):
         for dia in dias:
             r = rng("c13/%s/%s" % (_key(beh), dia))
             src, opts, _ = symrender.render(beh, dia, r)
-            jobs.append({"sources": {"a.asm": src}, "opts": opts})
+            jobs.append({"sources": {"a.asm": src}, "opts": opts, "env": {"ASL_VERIF_MAX_PASSES": PASS_CAP}})
             meta.append((beh, dia, src, opts))
     with Phase("replay %d programs" % len(jobs)):
         results = aslrun.assemble_many(bld, jobs)
@@ -207,11 +234,17 @@ def replay_all(rep, bld, behs, tier):
             nok += 1
         judge(rep, beh, dia, src, opts, res)
     rep.traces(len(jobs))
-    rep.part("replay", programs=len(behs), silent_skipped=nsilent, runs=len(jobs), expected_error=nerr,
-             expected_clean=nok)
-    for (beh, dia, src, opts) in meta[:1] + meta[len(meta) // 2: len(meta) // 2 + 1] + meta[-2:]:
+    p = rep.cov["parts"].setdefault("replay", {"programs": 0, "silent_skipped": 0, "runs": 0, "expected_error": 0,
+                                               "expected_clean": 0})
+    p["programs"] += len(behs)
+    p["silent_skipped"] += nsilent
+    p["runs"] += len(jobs)
+    p["expected_error"] += nerr
+    p["expected_clean"] += nok
+    clean = [m for m in meta if not m[0]["exp"]["err"] and len(m[0]["exp"]["words"]) > 2]
+    for (beh, dia, src, opts) in clean[:1] + clean[-1:]:
         rep.sample({"program": beh["prog"], "cs": beh["cs"], "dialect": dia, "rendered": src,
-                    "expected": {"err": beh["exp"]["err"], "words": [w["v"] for w in beh["exp"]["words"]]}})
+                    "expected": {"err": beh["exp"]["err"], "words": [w["v"] for w in beh["exp"]["words"]]}}, limit=8)
     return meta
 
 
@@ -227,7 +260,8 @@ def extra_pass(rep, bld, behs):
             continue
         r = rng("c13/%s/z80" % _key(beh))
         src, opts, _ = symrender.render(beh, "z80", r)
-        jobs.append({"sources": {"a.asm": src}, "opts": opts, "env": {"ASL_VERIF_EXTRA_PASSES": "1"}})
+        jobs.append({"sources": {"a.asm": src}, "opts": opts,
+                     "env": {"ASL_VERIF_EXTRA_PASSES": "1", "ASL_VERIF_MAX_PASSES": PASS_CAP}})
         meta.append((beh, src, opts))
     with Phase("forced extra pass on %d programs" % len(jobs)):
         results = aslrun.assemble_many(bld, jobs)
@@ -269,7 +303,8 @@ def validate_generated(rep, bld, behs, tier):
     for beh in pool:
         r = rng("c13/%s/z80" % _key(beh))
         src, opts, _ = symrender.render(beh, "z80", r)
-        jobs.append({"sources": {"a.asm": src}, "opts": opts, "events": "file,stmt,sym,ref"})
+        jobs.append({"sources": {"a.asm": src}, "opts": opts, "events": "file,stmt,sym,ref",
+                     "env": {"ASL_VERIF_MAX_PASSES": PASS_CAP}})
     with Phase("record %d traces" % len(jobs)):
         results = aslrun.assemble_many(bld, jobs)
     execs, owner, unaligned = [], [], 0
@@ -291,36 +326,41 @@ def validate_generated(rep, bld, behs, tier):
         xs = [[dict(ev[0], devs=devs)] + ev[1:] for ev in items]
         return tracecheck.validate("Symbols_Trace", xs, reset={"a": "RESET", "cs": False, "devs": []},
                                    timeout=1700, mem="6g")
-    plain = [i for i, o in enumerate(owner) if not o[0]["exp"]["devs"]]
-    special = [i for i, o in enumerate(owner) if o[0]["exp"]["devs"]]
     with Phase("validate %d executions" % len(execs)):
-        v = run([execs[i] for i in plain], pinned)
+        # all recordings against the machine of the pinned tree.  A text with a deviation pattern may be rejected
+        # because the tree carries a repair: such a recording is taken out and tried with the repaired machines.
+        todo = list(range(len(execs)))
+        tot = [0, 0, 0]
         fail = None
-        if not v.accepted:
-            fail = (plain[v.fail_exec], v)
-        tot_events, tot_states, tot_gen, wall = v.events, v.states, v.generated, v.wall
-        # texts with a deviation pattern: the tree may carry one of the repairs - accepted if the machine with the
-        # deviations of the pinned tree or with that repair accepts the recording
-        for i in special[:40]:
+        nval = 0
+        for _round in range(14):
+            v = run([execs[i] for i in todo], pinned)
+            tot = [tot[0] + v.events, tot[1] + v.states, tot[2] + v.generated]
+            if v.accepted:
+                nval += len(todo)
+                break
+            i = todo[v.fail_exec]
             devs = owner[i][0]["exp"]["devs"]
-            cands = [pinned, [d for d in pinned if d not in devs]] + [[d for d in pinned if d != x] for x in devs]
-            last = None
-            for cd in cands:
-                last = run([execs[i]], cd)
-                tot_events += last.events
-                tot_states += last.states
-                tot_gen += last.generated
-                if last.accepted:
+            ok = False
+            for cd in ([[d for d in pinned if d not in devs]] + [[d for d in pinned if d != x] for x in devs]) if devs else []:
+                w = run([execs[i]], cd)
+                tot = [tot[0] + w.events, tot[1] + w.states, tot[2] + w.generated]
+                if w.accepted:
+                    ok = True
                     break
-            if not last.accepted and fail is None:
-                fail = (i, last)
-        if fail is not None:
-            v = fail[1]
-            v.fail_exec = fail[0]
+            if not ok:
+                v.fail_exec = i
+                fail = v
+                break
+            nval += 1
+            todo.remove(i)
         else:
+            rep.drift("trace validation stopped after 14 rounds of peeling recordings of repaired behaviour; %d not "
+                      "validated" % len(todo))
+        if fail is None:
             v.accepted = True
-        v.events, v.states, v.generated = tot_events, tot_states, tot_gen
-        v.executions = len(plain) + min(40, len(special))
+        v.events, v.states, v.generated = tot
+        v.executions = nval
     rep.part("Symbols_Trace(generated)", events=v.events, executions=v.executions, accepted=v.accepted,
              distinct_states=v.states, wall_s=v.wall)
     rep.cov["states"] += v.states
@@ -486,10 +526,18 @@ def main(tier):
                         "expected values, expected errors and the acceptance of traces are TLC's",
                         "hooks: %s" % ("sym_def/sym_ref/stmt events" if bld.hooks else "unavailable (replay only)")]
     model_check(rep, tier)
-    behs = generate(rep, tier)
-    replay_all(rep, bld, behs, tier)
-    extra_pass(rep, bld, [b for b in behs if b["src"].startswith("Symbols_Sim")] if tier == "quick" else behs)
-    validate_generated(rep, bld, behs, tier)
+    keep = []
+    r0 = rng("c13/keep")
+    for name, behs in generate(rep, tier):
+        replay_all(rep, bld, behs, tier)
+        for b in behs:
+            b["exp"].pop("kinds", None)
+        if name.startswith("Symbols_Sim") or tier == "quick":
+            keep += behs
+        else:
+            keep += r0.sample(behs, min(len(behs), 1500))
+    extra_pass(rep, bld, [b for b in keep if b["src"].startswith("Symbols_Sim")] if tier == "quick" else keep)
+    validate_generated(rep, bld, keep, tier)
     validate_corpus(rep, bld)
     return rep.finish(
         rule="programs = every text up to 3 (thorough 4) statements over the alphabet of each focus area (TLC BFS, "
